@@ -248,6 +248,20 @@ def ev_spell(case, rec):
                 rec.outcome('headers-bad')
             else:
                 rec.outcome('headers-ok')
+        # parameters the endpoint does not know (cache busters, campaign tags, a JSONP callback name, a repeated switch of a proxy):
+        # 'for every query' - they are not the library's arguments and the answer is the same document
+        for ex in ('_=1696239999123', 'utm_source=docs', 'v=2', 'callback=cb', 'format=json', 'ellipsoid=grs80', 'debug', 'x=', 'lat3=1.0'):
+            q0 = '&'.join('%s=%s' % kv for kv in zip(keys, vals))
+            for url in ('/%s?%s%s&%s' % (route, q0, extra, ex), '/%s?%s&%s%s' % (route, ex, q0, extra)):
+                st, resp = rec.call(c.get, url)
+                rec.nontriv((route, ft, tt, 'extra', ex, url[:12]))
+                if st != 'ok' or resp.status_code != 200 or resp.data != base.data:
+                    rec.fail('the same query carrying the unrelated parameter %r is not answered like the query without it' % ex,
+                             site='api:%s:extra-parameter' % route, observed=resp if st != 'ok' else [resp.status_code, resp.data[:160].decode('latin1')],
+                             expected=[200, base.data[:160].decode('latin1')], case=dict(case, url=url), coords={'from': ft, 'to': tt, 'extra': ex})
+                    rec.outcome('extra-bad')
+                else:
+                    rec.outcome('extra-ok')
         # the parameters of a query string carry names: their ORDER is free (every permutation of the numeric parameters, with the
         # angle-type switches in front, behind and in between)
         sw = [s for s in extra.split('&') if s]
@@ -269,6 +283,45 @@ def ev_spell(case, rec):
         else:
             rec.outcome('order-ok')
     rec.sample(case)
+
+
+def ev_context(case, rec):
+    """the application used in-process by a caller who HOLDS an application / request context (a pytest fixture, flask shell, a CLI
+    command, a background job): a sequence of queries with every combination of angle types, each answered exactly like the same
+    query sent without any held context"""
+    c = client()
+    app = _APP['app']
+    route, keys, vals = case['route'], case['keys'], case['vals']
+    combos = list(itertools.product(TYPES, TYPES))
+    order = combos if case['order'] == 'fwd' else combos[::-1] if case['order'] == 'rev' else combos[4:] + combos[:4]
+
+    def url_of(ft, tt):
+        return '/%s?%s%s%s' % (route, '&'.join('%s=%s' % kv for kv in zip(keys, vals)), '&from_angle_type=%s' % ft if ft else '',
+                               '&to_angle_type=%s' % tt if tt else '')
+    plain = {(ft, tt): c.get(url_of(ft, tt)) for ft, tt in combos}
+    holders = {'app_context': app.app_context, 'test_request_context': lambda: app.test_request_context('/'),
+               'nested app_context': app.app_context}
+    with holders[case['holder']]():
+        for ft, tt in order * 2:
+            st, resp = rec.call(app.test_client().get if case['holder'] == 'nested app_context' else c.get, url_of(ft, tt))
+            rec.nontriv((route, case['holder'], case['order'], ft, tt))
+            b = plain[(ft, tt)]
+            if st != 'ok' or resp.status_code != b.status_code or resp.data != b.data:
+                rec.fail('a query sent while the caller holds a %s is answered differently from the same query sent on its own (earlier queries in '
+                         'the same context used other angle types)' % case['holder'], site='api:%s:held-context' % route,
+                         observed=resp if st != 'ok' else [resp.status_code, resp.data[:160].decode('latin1')],
+                         expected=[b.status_code, b.data[:160].decode('latin1')], case=dict(case, url=url_of(ft, tt)), coords={'from': ft, 'to': tt})
+                rec.outcome('context-bad')
+            else:
+                rec.outcome('context-ok')
+    rec.sample(case)
+
+
+def gen_context(tier, seed):
+    for g in gen_spell(tier, seed):
+        for holder in ('app_context', 'test_request_context', 'nested app_context'):
+            for order in ('fwd', 'rev', 'rot'):
+                yield dict(g, holder=holder, order=order)
 
 
 def ev_spell_single(case, rec):
@@ -317,6 +370,7 @@ from gpmc import interp as _ip
 
 SUBCHECKS = [
     Sub('spellings', gen_spell, ev_spell_single, chunk=1, floor=100, guard=False),
+    Sub('held_context', gen_context, ev_context, chunk=1, floor=20, guard=False),
     Sub('threads', gen_threads, ev_threads, chunk=1, floor=10, poison=False, fresh=True, timeout=3600),
     Sub('vincdir', gen_dir, ev_dir, chunk=1, floor=500, guard=True, envs=3),
     Sub('vincinv', gen_inv, ev_inv, chunk=4, floor=500, guard=True, envs=3),
